@@ -590,6 +590,49 @@ func (in *c09Inst) header(c *c09Case) (hdrs []string, valid [][2]string) {
 	case "bearer-none":
 		return one("Bearer " + in.mint(jwt.SigningMethodNone, jwt.UnsafeAllowNoneSignatureType,
 			jwt.MapClaims{"exp": now.Add(time.Hour).Unix(), "iss": "simpleiot", "jti": uid})), valid
+	case "bearer-forged-claims":
+		// forged or stale tokens dressed with the other registered claims (issued-at in the future or the past,
+		// not-before, audience, subject): none of them makes a bad signature or an expired token acceptable
+		var k any = []byte{}
+		switch c.HdrArg % 4 {
+		case 0:
+			kk := make([]byte, len(in.key))
+			for i := range kk {
+				kk[i] = in.key[i] ^ 0x5a
+			}
+			k = kk
+		case 1:
+			k = []byte{}
+		case 2:
+			k = []byte("simpleiot")
+		case 3:
+			k = in.key // genuine key, but expired (below)
+		}
+		exp := now.Add(time.Hour)
+		if c.HdrArg%4 == 3 {
+			exp = now.Add(-time.Hour)
+		}
+		claims := jwt.MapClaims{"exp": exp.Unix(), "iss": "simpleiot", "jti": uid}
+		switch (c.HdrArg / 4) % 5 {
+		case 0:
+			claims["iat"] = now.Add(time.Hour).Unix()
+		case 1:
+			claims["iat"] = now.Add(-time.Hour).Unix()
+		case 2:
+			claims["nbf"] = now.Add(-time.Hour).Unix()
+		case 3:
+			claims["iat"] = now.Add(24 * time.Hour).Unix()
+			claims["nbf"] = now.Add(-time.Minute).Unix()
+			claims["aud"] = "simpleiot"
+		case 4:
+			claims["iat"] = now.Add(time.Minute).Unix()
+			claims["sub"] = uid
+			delete(claims, "exp")
+			if c.HdrArg%4 == 3 {
+				claims["exp"] = now.Add(-time.Second).Unix()
+			}
+		}
+		return one("Bearer " + in.mint(jwt.SigningMethodHS256, k, claims)), valid
 	case "bearer-hs512":
 		return one("Bearer " + in.mint(jwt.SigningMethodHS512, in.key,
 			jwt.MapClaims{"exp": now.Add(time.Hour).Unix(), "iss": "simpleiot", "jti": uid})), valid
@@ -636,7 +679,7 @@ func (in *c09Inst) header(c *c09Case) (hdrs []string, valid [][2]string) {
 
 var c09HdrKinds = []string{"absent", "empty", "token", "token-suffix", "token-prefix", "token-case", "token-space", "token-twice",
 	"bearer-token", "basic", "bearer-real", "bearer-mint", "bearer-2sp", "bearer-tab", "bearer-extra", "lower-bearer", "no-scheme",
-	"token-bearer", "bearer-expired", "bearer-otherkey", "bearer-emptykey", "bearer-none", "bearer-hs512", "bearer-hs384",
+	"token-bearer", "bearer-expired", "bearer-otherkey", "bearer-emptykey", "bearer-none", "bearer-hs512", "bearer-hs384", "bearer-forged-claims",
 	"bearer-trunc", "bearer-sigflip", "bearer-payload", "bearer-algswap", "bearer-nosig", "bearer-twoparts", "bearer-garbage",
 	"bearer-only", "dup-garbage-token", "dup-token-garbage"}
 
